@@ -72,44 +72,37 @@ impl OverlapChecker
         size: usize)
         -> (usize, Option<&OverlapCheckerEntry>)
     {
-        let index = self.entries.binary_search_by(|e| {
-            e.position.cmp(&position)
+        // Index of the first entry that starts after `position`
+        let index = self.entries.partition_point(|e| {
+            e.position <= position
         });
 
-        match index
+        if let Some(next) = self.entries.get(index)
         {
-            Ok(i) =>
+            if position + size > next.position
             {
-                if self.entries[i].size > 0 && size > 0
-                {
-                    return (i + 1, Some(&self.entries[i]));
-                }
-
-                (i + 1, None)
-            }
-
-            Err(i) =>
-            {
-                if i < self.entries.len()
-                {
-                    let next = &self.entries[i];
-                    if position + size > next.position
-                    {
-                        return (i, Some(next));
-                    }
-                }
-
-                if i > 0 && i - 1 < self.entries.len()
-                {
-                    let prev = &self.entries[i - 1];
-                    if prev.position + prev.size > position
-                    {
-                        return (i - 1, Some(prev));
-                    }
-                }
-
-                (i, None)
+                return (index, Some(next));
             }
         }
+
+        // Zero-sized entries may sit between `position` and the
+        // nearest sized entry at or before it, so skip over them
+        for prev in self.entries[..index].iter().rev()
+        {
+            if prev.size == 0
+            {
+                continue;
+            }
+
+            if prev.position + prev.size > position &&
+                (size > 0 || prev.position < position)
+            {
+                return (index, Some(prev));
+            }
+
+            break;
+        }
+
+        (index, None)
     }
 }
